@@ -47,7 +47,13 @@ fn sp_op(rng: &mut Rng, sp: &il::Scalar, fp: &il::Scalar, data: &[il::Scalar]) -
             slot * rng.range(1, 4)
         }
     };
-    match rng.below(21) {
+    match rng.below(24) {
+        // a sub-register update of the stack pointer as the lifters emit it (add wsp, wsp, #16 / sub esp, 8 in long
+        // mode): the upper half is cleared, the result is not "stack pointer plus a constant"
+        21 => il::Operation::assign(sp.clone(), E::zext(w, E::add(E::trun(w / 2, spx()).unwrap(), il::expr_const(slot * rng.range(1, 4), w / 2)).unwrap()).unwrap()),
+        22 => il::Operation::assign(sp.clone(), E::zext(w, E::trun(w / 2, spx()).unwrap()).unwrap()),
+        // through a wider temporary and back: this IS stack pointer plus a constant (either answer is sound)
+        23 => il::Operation::assign(sp.clone(), E::trun(w, E::add(E::zext(2 * w, spx()).unwrap(), il::expr_const(slot * rng.range(1, 4), 2 * w)).unwrap()).unwrap()),
         0 | 1 => il::Operation::assign(sp.clone(), E::sub(spx(), k(disp(rng))).unwrap()),
         2 | 3 => il::Operation::assign(sp.clone(), E::add(spx(), k(disp(rng))).unwrap()),
         4 => il::Operation::store(spx(), dw(E::Scalar(d), w)),
